@@ -17,6 +17,12 @@ CHECKS = [
         "text": "For every type of the grammar, every skeleton datum and every single substitution of 51 wild / JSON atoms at every position is deserialized under coerce x additional_properties x fall_back_on_default x no_copy; any exception other than ValidationError, a non-computable or non-JSON-serialisable .errors, a modified input (structure and container identities) or modified user classes is a violation; 50/400/900-deep data for recursive shapes.",
         "note": "Bounds: one wild substitution per datum, nesting 2; recursion limit 1000. Known finding: RecursionError on 400/900-deep data of recursive types (listed in known_findings.json).",
     },
+    {
+        "id": "C20", "engine": "E3", "design_ref": "DESIGN.md §4, §5 C20",
+        "technique": "stateless model checking of the implementation: exhaustive enumeration of thread schedules with bounded preemptions (CHESS-style iterative context bounding) under a cooperative scheduler driven by sys.monitoring line/bytecode events",
+        "text": "For each harness (2-3 real threads performing the first deserialize / serialize / schema generation on fresh recursive, mutually recursive, generic, shared-member, converted and plain types) every schedule with <=1 preemption (quick) / <=2 preemptions on the shared-state core plus bytecode-level points on the recursion analysis (thorough) is executed on the real code; each thread's result and follow-up observations must equal the sequential baseline; failing schedules are replayed twice before being reported; replayed prefixes are validated entry by entry.",
+        "note": "Assumes CPython 3.12 GIL semantics (switches only between bytecodes, C-level dict/lru_cache operations atomic). Scheduling points only inside apischema's shared-state modules. Bounds: 2 threads (3 in one harness), <=2 preemptions. Randomised preemption (sampling) is not used.",
+    },
 ]
 _PENDING = "check not built yet in this round (planned, see DESIGN.md §5); not claimed until it runs green"
-NOT_APPLICABLE = [{"property_id": f"C{i:02d}", "reason": _PENDING} for i in range(4, 21)]
+NOT_APPLICABLE = [{"property_id": f"C{i:02d}", "reason": _PENDING} for i in range(4, 20)]
